@@ -31,8 +31,10 @@ ASSUMPTIONS = [
 ]
 MANIFEST_ENTRY = {
     'technique': 'exhaustive enumeration of the menu choices through the Flask '
-                 'test client + Hypothesis-generated decode / new-errors '
-                 'requests; differential against direct library calls',
+                 'test client, the description loops of the code-data handler '
+                 'at every entry of the size menu of every class + '
+                 'Hypothesis-generated decode / new-errors requests; '
+                 'differential against direct library calls',
     'level_text': 'Every (code, deformation, picture, size) the menus offer up '
                   'to the size bound is requested and the response compared '
                   'with the library (index order, completeness of every '
